@@ -53,10 +53,24 @@ Definition db_get (db : list (pystr * record)) (k : pystr) : res record :=
   | _ => Err KeyError
   end.
 Definition dict_update (a b : record) : record := fold_left (fun acc kv => aset (fst kv) (snd kv) acc) b a.
+(* Current.update: the nonce of a session is the one its request was sent with - a member called nonce in what
+   is stored later (a response may carry one) that differs from it is dropped; one that is equal changes nothing
+   (for a string, equal means the same string), so it is dropped as well *)
+Definition drop_nonce (info : record) : record :=
+  List.filter (fun kv => negb (str_eqb (fst kv) (PS "nonce"))) info.
+Definition keep_nonce (cur info : record) : record :=
+  match assoc (PS "nonce") cur with
+  | Some (VStr _) => drop_nonce info
+  | Some n => match assoc (PS "nonce") info with
+              | Some v => if pyval_eqb v n then info else drop_nonce info
+              | None => info
+              end
+  | None => info
+  end.
 Definition db_update (db : list (pystr * record)) (k : pystr) (info : record) : list (pystr * record) :=
   match assoc k db with
   | None => aset k info db
-  | Some cur => aset k (dict_update cur info) db
+  | Some cur => aset k (dict_update cur (keep_nonce cur info)) db
   end.
 
 (* Current.bind_key(sub, st) refuses when sub is bound to a different state whose record has sub as its nonce *)
@@ -194,6 +208,10 @@ Section WithHash.
                       | Some (VStr n) =>
                           match assoc n (cl_map c) with
                           | Some s => if str_eqb s st then
+                                        (* ... and it is the nonce this session's request was sent with, not some
+                                           other key (a subject, a session id) bound to the session *)
+                                        if negb (option_eqb pyval_eqb (assoc (PS "nonce") rec) (Some (VStr n)))
+                                        then Err E_ParameterError else
                                         match assoc (PS "sub") idt with
                                         | Some (VStr sub) =>
                                             if sub_clash (cl_db c) (cl_map c) st sub then Err ValueError
@@ -266,7 +284,8 @@ Section WithHash.
 
   (* oidc RefreshAccessToken.update_service_context, the checks made before anything is recorded (OpenID Connect
      Core 12.2): an ID Token in a refresh response is about the subject of the ID Token the session already has,
-     and a nonce in it is bound - in this client's key map - to the very state the refresh was made for *)
+     and a nonce in it is bound - in this client's key map - to the very state the refresh was made for and is
+     the nonce that state's request was sent with *)
   Definition refresh_bound (c : client) (st : pystr) (rec d1 : record) : res unit :=
     match assoc (verified_name (PS "id_token")) d1 with
     | None => Ok tt
@@ -282,7 +301,8 @@ Section WithHash.
         | None => Ok tt
         | Some (VStr n) =>
             match assoc n (cl_map c) with
-            | Some s => if str_eqb s st then Ok tt else Err E_ParameterError
+            | Some s => if str_eqb s st && option_eqb pyval_eqb (assoc (PS "nonce") rec) (Some (VStr n))
+                        then Ok tt else Err E_ParameterError
             | None => Err ValueError
             end
         | Some _ => Unmodelled
@@ -482,6 +502,57 @@ Fixpoint issued (ops : list op) : list (pystr * pystr) :=
   | _ :: r => issued r
   end.
 
+(* ---- the nonce clause of C08 over histories ----
+   sent_by i ops: the sessions the client for issuer i started in a history, as (state, the nonce its
+   authorization request was sent with) *)
+Fixpoint sent_by (i : pystr) (ops : list op) : list (pystr * pystr) :=
+  match ops with
+  | [] => []
+  | OBegin j st nonce _ :: r => if str_eqb j i then (st, nonce) :: sent_by i r else sent_by i r
+  | _ :: r => sent_by i r
+  end.
+(* what the relying party draws is fresh (rndstr) and the request it puts on record carries the nonce it drew:
+   it has a client for the provider, the state is not a record of that client yet, the nonce is not a key of its
+   map yet and is not empty *)
+Definition fresh_begin (w : list (pystr * client)) (o : op) : Prop :=
+  match o with
+  | OBegin i st nonce req =>
+      has_key i w = true /\ rec_of w i st = None /\ map_of w i nonce = None /\ nonce <> [] /\
+      has_key (PS "nonce") req = true /\ (forall v, In (PS "nonce", v) req -> v = VStr nonce)
+  | _ => True
+  end.
+Fixpoint fresh_history (lhash : pystr -> pystr -> pystr) (w : list (pystr * client)) (ops : list op) : Prop :=
+  match ops with
+  | [] => True
+  | o :: r => fresh_begin w o /\ fresh_history lhash (fst (step lhash w o)) r
+  end.
+(* the operations that deliver an ID Token, and the session (state) a response was accepted for: the state the
+   relying party made the request for (back channel), the state the response names (authorization response) *)
+Definition accepted_for (o : op) (stored : record) (st : pystr) : Prop :=
+  match backchannel_of o with
+  | Some s => s = st
+  | None => assoc (PS "state") stored = Some (VStr st)
+  end.
+(* the same as a decidable check on a generated trace: every accepted ID Token (what is handed back has a verified
+   ID Token) carries the nonce sent for the session it was accepted for *)
+Definition nonce_as_sent (sent : list (pystr * pystr)) (o : op) (stored : record) : bool :=
+  match assoc (verified_name (PS "id_token")) stored with
+  | Some (VDict vd) =>
+      let st := match backchannel_of o with
+                | Some s => Some s
+                | None => match assoc (PS "state") stored with Some (VStr s) => Some s | _ => None end
+                end in
+      match st with
+      | Some s => match assoc s sent, assoc (PS "nonce") vd with
+                  | Some n, Some v => pyval_eqb v (VStr n)
+                  | Some _, None => match refresh_of o with Some _ => true | None => false end
+                  | None, _ => false
+                  end
+      | None => false
+      end
+  | _ => true
+  end.
+
 (* ---- hybrid / implicit front-channel responses, recombined member by member ----
    What a provider hands out for ONE flow: the state and the nonce the flow was started with, the code and the
    access token issued for it at the authorization endpoint, and its ID Token (fl_jwt names the compact
@@ -577,3 +648,32 @@ Fixpoint trace_unmodelled (lh : pystr -> pystr -> pystr) (w : list (pystr * clie
   end.
 Definition chk_modelled (t : trace_case) : bool :=
   let '(cfgs, tbl, tr) := t in negb (trace_unmodelled (lhash_of tbl) (init_world cfgs) tr).
+
+(* ---- the nonce clause on a generated trace (the history theorem, evaluated): replaying the trace in the model,
+   every accepted delivery of an ID Token carries the nonce sent for the session it was accepted for ---- *)
+Definition idtoken_op (o : op) : bool :=
+  match o with
+  | OAuthz _ _ _ | OToken _ _ _ _ | ORoutedToken _ _ _ | ORefresh _ _ _ _ | ORoutedRefresh _ _ _ => true
+  | _ => false
+  end.
+Fixpoint nonce_steps (lh : pystr -> pystr -> pystr) (w : list (pystr * client)) (pre : list op)
+         (tr : list (op * (res record * world_snapshot))) : bool :=
+  match tr with
+  | [] => true
+  | (o, _) :: rest =>
+      let '(w1, out) := step lh w o in
+      match out with
+      | Unmodelled => true
+      | Ok stored =>
+          (if idtoken_op o && negb (has_key (PS "error") stored) then
+             match op_target w o with
+             | Some i => nonce_as_sent (sent_by i pre) o stored
+             | None => true
+             end
+           else true) && nonce_steps lh w1 (pre ++ [o]) rest
+      | Err _ => nonce_steps lh w1 (pre ++ [o]) rest
+      end
+  end.
+Definition chk_trace_nonce (t : trace_case) : bool :=
+  let '(cfgs, tbl, tr) := t in nonce_steps (lhash_of tbl) (init_world cfgs) [] tr.
+Definition chk_history (t : trace_case) : bool := chk_trace t && chk_trace_nonce t.
